@@ -11,6 +11,13 @@ type Observer = Box<dyn Fn(&str, &str) + Send + Sync>;
 
 static OBSERVER: RwLock<Option<Observer>> = RwLock::new(None);
 
+static NEXT_ID: std::sync::atomic::AtomicU64 = std::sync::atomic::AtomicU64::new(1);
+
+/// A process-unique id, used to tell concurrent tasks apart in the event stream.
+pub fn next_id() -> u64 {
+    NEXT_ID.fetch_add(1, std::sync::atomic::Ordering::Relaxed)
+}
+
 /// Installs (or removes) the observer.
 pub fn set_observer(observer: Option<Observer>) {
     *OBSERVER.write().unwrap_or_else(|e| e.into_inner()) = observer;
